@@ -55,7 +55,11 @@ std::vector<double> GenerateStochasticDistribution (std::vector<double> mesh_x, 
 
   for(int i=0; i<n_meshes*n_species; i++)
     {
-    if (mesh_x[i]<100)
+    if (!(mesh_x[i]>0))
+      {
+      mesh_x_sto[i] = 0; // std::poisson_distribution requires a strictly positive mean
+      }
+    else if (mesh_x[i]<100)
       {
       mesh_x_sto[i] = std::poisson_distribution<int>(mesh_x[i])(rng);
       }
@@ -241,7 +245,8 @@ extern "C" int engineexport_initialize_grid (
       mesh_x = SpeciesFirstToMeshFirstArray(MkVec<double, double>(mesh_state, n_meshes*n_species), n_species, n_meshes);
       for(size_t i=0; i<mesh_x.size(); i++)
         {
-        mesh_x[i] = static_cast<double>(std::poisson_distribution<long long>(mesh_x[i])(rng));
+        if(mesh_x[i] > 0) mesh_x[i] = static_cast<double>(std::poisson_distribution<long long>(mesh_x[i])(rng));
+        else mesh_x[i] = 0; // std::poisson_distribution requires a strictly positive mean
         }
       }
     else if(CompareStr(init_state_processing, "floor"))
@@ -372,7 +377,8 @@ extern "C" int engineexport_initialize_graph (
       mesh_x = SpeciesFirstToMeshFirstArray(MkVec<double, double>(mesh_state, n_meshes*n_species), n_species, n_meshes);
       for(size_t i=0; i<mesh_x.size(); i++)
         {
-        mesh_x[i] = static_cast<double>(std::poisson_distribution<long long>(mesh_x[i])(rng));
+        if(mesh_x[i] > 0) mesh_x[i] = static_cast<double>(std::poisson_distribution<long long>(mesh_x[i])(rng));
+        else mesh_x[i] = 0; // std::poisson_distribution requires a strictly positive mean
         }
       }
     else if(CompareStr(init_state_processing, "floor"))
